@@ -1,4 +1,5 @@
 import Proofs.C03
+import Proofs.Gen
 #print axioms Xsel.C03.union_is_eval
 #print axioms Xsel.C03.union_ascending
 #print axioms Xsel.C03.mem_union
@@ -14,3 +15,5 @@ import Proofs.C03
 #print axioms Xsel.C03.spec_result_monotone
 #print axioms Xsel.C03.forward_expr_ascending
 #print axioms Xsel.C03.union_result_ascending
+#print axioms Xsel.Gen.selector_cleanup_agrees
+#print axioms Xsel.Gen.inplace_ops_on_fresh
